@@ -63,5 +63,11 @@ CHECKS.update({
           "Valid PRNG plans with 0-3 structural mutations (blank names, dropped children, pre-set engine fields, duplicate/v4 keys, timeout boundary values, unknown plugin, wrong request type, nil entries, nil plan): Submit accepts iff an independent validator written from the statement accepts, never panics, rejects leave the raw store unchanged, accepted plans get fresh distinct v7 ids, pristine state, submit time and the submitted definition; Start refuses check actions with non-check plugins.",
           "Trusted base: the independent validator follows the property statement; values on which the statement is silent are not generated.", "DESIGN.md §C16"),
 })
+
+CHECKS.update({
+ "C11": c("exploration", "runtime monitor: store contents before/after coercion.New + per-plan write/invocation counts from a recording vault and scripted plugins",
+          "Stores mixing never-started, Completed, Failed, fresh Running (reachable write-prefix states) and stale Running plans (all state times shifted past the maximum through the vault's own calls) under WithMaxLastUpdate(1 min / default / 2 h) and WithNoRecovery: untouched plans must be byte-for-byte unchanged with zero writes and invocations, fresh Running plans must reach a terminal state, stale ones must be Failed/ExceedRecovery with nothing Running and no invocation.",
+          CRASH_NOTE + " Ages are one minute away from the maximum; equality is not explored.", "DESIGN.md §C11"),
+})
 BUILT = set(CHECKS)
 NOT_APPLICABLE = {f"C{i:02d}": "check under construction in this round (runtime monitor designed in DESIGN.md, not yet registered)" for i in range(1, 21) if f"C{i:02d}" not in BUILT}
